@@ -193,6 +193,9 @@ type World struct {
 	Broken bool
 	// held: message bytes of earlier outputs still referenced by their receiver
 	held []retained
+	// folded / foldedWant: the host's accumulated output account per address and what it must list
+	folded     map[string]*vmcommon.OutputAccount
+	foldedWant map[string][]string
 	// toReuse: executions of this event whose input buffers their owner reuses at the end of the event
 	toReuse []*Exec
 	// options
